@@ -488,6 +488,15 @@ def _ctor_steps(run, which, prefix):
                        "union": (lambda r: r.get("f") in ("union", "union_list")) if which == "ctor_steps"
                                 else (lambda r: r.get("e", {}).get("k") == "alt")})
     run.extra["ctor_driver"] = info
+    # a structural divergence (some rule is applied differently from the model) is not a violation, but it is a reason
+    # to test the semantic obligations on many more steps: the thorough-size families
+    if run.tier != "thorough" and any(st == which for (st, _n) in run.internal_notes):
+        log("[%s] constructor/derivative steps diverged from Constructors.tla: escalating to the thorough-size families" % run.prop)
+        out2 = os.path.join(run.workdir, "ctor_escalation")
+        info2 = core.drive("ctor", out2, "thorough", run.seed, extra=(), profile="dev", timeout=1800, verb="drive")
+        run.validate(which + "_escalation", os.path.join(out2, which + ".ndjson"), "Trace_Constructors",
+                     "Trace_Constructors.cfg", [prefix], workers=workers(run), timeout=3000, note_prefixes=("RULES:",))
+        run.extra["ctor_escalation"] = info2
     run.rule += ("; plus one-step conformance: every constructor call (resp. every derivative, one level at a time) "
                  "made on the real terms of the families is compared with the model of module Constructors "
                  "(language exactly; tree shape as NOTE-level internal specification)")
